@@ -32,6 +32,15 @@ CHECKS = {
  "C02": ("Lean theorem C02_timestamp (TS 32.298 BCD timestamp read back by an independent reader for every civil time and every zone offset of whole minutes within +/-14h) and bookkeeping theorems of the charging model (usage appended unchanged and in order to the designated record, identity fields kept, rejected requests and other subscribers untouched, release cause 0). The exactly-once-per-session statement over whole histories is evaluated as an oracle on the implementation's trace (tracer = local sequence number) after every operation; it is not yet a Lean theorem over histories (partial).",
          "Trusted: Lean kernel; model correspondence (records compared field by field after every op); MultiUnitUsageToCdr validated by correspondence only. The history-level refinement (sessUsage = spec log) is checked on traces, proved only at step level.",
          "Lean 4 proofs (timestamp codec, step-level bookkeeping) + correspondence + exactly-once oracle on traces", "DESIGN.md §5 C02"),
+ "C13": ("Lean theorem C13 over the router model (induction over an arbitrary service list): every route carries the authorization middleware before its handler, so an unverifiable token yields 401 and the API function does not run; the facts tying the model to newRouter (each case installs Use(auth) before applyRoutes; nothing registered on the bare engine; for all 16 ordered service lists every route gin really registered lies in a protected group with exactly one extra handler) are regenerated into Gen/Routes.lean on every run and discharged by decide. Exhaustive probe of every registered route x 6 bad-token kinds on the real engine.",
+         "Trusted: Lean kernel; gin semantics (group middleware order, Abort) modelled; oauth.VerifyOAuth abstracted; the go/ast extractor for newRouter.",
+         "Lean 4 proof over a router model + regenerated tables checked by decide + exhaustive route probing", "DESIGN.md §5 C13"),
+ "C17": ("Regenerated tables (all AVP definitions of both dictionaries; every avp: struct tag with what the loaded dictionary resolves it to) checked by decide +kernel: every tag defined, type-compatible, codes unique per (application, vendor), names unique; Lean round-trip theorems for the basic AVP data formats over their full ranges; correspondence of those formats with go-diameter; message-level fidelity of all four message structures observed over real serialisation.",
+         "Trusted: Lean kernel; go-diameter is a modelled library (message framing and reflection marshalling are observed, not proved).",
+         "decide over regenerated tables + Lean codec proofs + correspondence + round-trip oracle", "DESIGN.md §5 C17"),
+ "C20": ("Lean theorems over a presence model of the configuration: validate c -> startsOK c (every section dereferenced at start-up is guaranteed), rejection of unknown service names / bad scheme / missing mandatory sections / https without TLS; the valid: tags the model relies on are regenerated from the compiled types and compared by decide. Every variant (baseline, all single and pairwise removals of 20 items x http/https, scheme and service-list alterations; thorough: all triples) is validated and, if accepted, really started in its own process.",
+         "Trusted: Lean kernel; govalidator/yaml semantics modelled; startsOK is hand-modelled from reading the start-up code and validated by starting every accepted variant.",
+         "Lean 4 proof over a finite-presence model + regenerated tags (decide) + correspondence + start-up oracle", "DESIGN.md §5 C20"),
 }
 PENDING_REASON = "check not built yet in this revision (work in progress; DESIGN.md plans a Lean model + correspondence check for it)"
 
